@@ -181,7 +181,14 @@ def run(ctx) -> None:
             if wide is not None:
                 ctx.count("c19.wide_store_saves")
             try:
-                store = PandasStore(st.run(cfg))
+                if rng.random() < 0.4 and not axis_named:
+                    # the axis-to-column mapping spelled out by the caller, keys in any order (same names as the default)
+                    items = [("t", "time"), ("z", "z"), ("y", "lat"), ("x", "lon")]
+                    rng.shuffle(items)
+                    store = PandasStore(st.run(cfg), axes=dict(items))
+                    ctx.count("c19.saves_with_explicit_axes_mapping")
+                else:
+                    store = PandasStore(st.run(cfg))
                 if do_agg:
                     if rng.random() < 0.5:
                         # history: the same store was already saved with the same options before the roll-up was added
